@@ -85,6 +85,7 @@ def main():
                         pass
             res['checks'][c] = {'exit': rc, 'lines': lines, 'replay': detail, 'mode': 'PICOTOOL_REPO=worktree'}
             print('  check %s: exit %d %s' % (c, rc, ' | '.join(lines)[:300]))
+        sh(['git', '-C', wt, 'checkout', '--', '.'])       # leave the scratch worktree clean for its next user
     elif ok and checks:
         rc, out = sh(['git', '-C', REPO, 'status', '--porcelain'])
         if out.strip():
